@@ -897,3 +897,110 @@ Proof.
   destruct (st_nonce_eq (b_status b)); simpl; [|exact I].
   apply (validate_status_total (b_status b)).
 Qed.
+
+(* ---------------------------------------------- iden3_serialization attribute *)
+Lemma nth_or_panic_ok {A} (l : list A) i : (i < List.length l)%nat -> exists a, nth_or_panic l i = Ok a.
+Proof.
+  intros H. unfold nth_or_panic. destruct (nth_error l i) eqn:E; [eauto|].
+  apply nth_error_None in E. lia.
+Qed.
+
+Lemma ser_parts_total parts : forall acc, ok_or_err (ser_parts true parts acc).
+Proof.
+  induction parts as [|part rest IH]; intros acc; [exact I|].
+  cbn [ser_parts]. set (kv := go_split "="%char part).
+  destruct (Nat.eqb (List.length kv) 2) eqn:En; cbn [negb]; [|exact I].
+  apply Nat.eqb_eq in En.
+  destruct (nth_or_panic_ok kv 0 ltac:(lia)) as [k Hk]. rewrite Hk. cbn [bind].
+  destruct (nth_or_panic_ok kv 1 ltac:(lia)) as [v Hv]. rewrite Hv. cbn [bind].
+  repeat match goal with |- context [if ?c then _ else _] => destruct c end; try apply IH; exact I.
+Qed.
+
+(* verifiable.ParseSerializationAttr: Ok or Err for EVERY string *)
+Theorem ser_attr_total attr : ok_or_err (parse_ser_attr attr).
+Proof.
+  unfold parse_ser_attr, parse_ser_attr_with.
+  destruct (strip_prefix "iden3:v1:" attr) as [body|]; [|exact I].
+  destruct (Nat.ltb 4 (List.length (go_split "&"%char body))); [exact I|].
+  apply ser_parts_total.
+Qed.
+
+(* the check `len(kv) > 2` lets a slot name without '=' reach kv[1] (seeded C12-m) *)
+Lemma ser_attr_refuted :
+  parse_ser_attr_with false "iden3:v1:slotIndexA=price&slotValueB" = Panic "index out of range".
+Proof. vm_compute. reflexivity. Qed.
+
+Example ser_attr_examples :
+  parse_ser_attr "iden3:v1:slotIndexA=price&slotValueB" = Err "part-format"
+  /\ parse_ser_attr "iden3:v1:slotIndexA=price&slotValueB=a.0" = Ok (mkslots "price" "" "" "a.0")
+  /\ parse_ser_attr "iden3:v1:" = Err "part-format"
+  /\ parse_ser_attr "iden3:v1:&&&&" = Err "too-many-parts".
+Proof. repeat split; vm_compute; reflexivity. Qed.
+
+(* --------------------------------------------------------- pathFromDocument *)
+Lemma nth_or_panic_Z {A} (arr : list A) i :
+  0 <= i -> (Z.of_nat (List.length arr) <=? i) = false -> exists a, nth_or_panic arr (Z.to_nat i) = Ok a.
+Proof.
+  intros H0 H. apply Z.leb_gt in H. apply nth_or_panic_ok. lia.
+Qed.
+
+(* merklize pathFromDocument: Ok or Err for every JSON value, every segment list (numeric
+   segments being non-negative, as ^\d+$ guarantees), whatever the context defines *)
+Theorem doc_path_total defined parts :
+  Forall (fun s => match s with SNum z => 0 <= z | SName _ => True end) parts ->
+  forall doc accept, ok_or_err (path_from_doc pv_repo defined parts doc accept).
+Proof.
+  induction parts as [|s rest IH]; intros Hnn doc accept; [exact I|].
+  inversion Hnn as [|? ? Hs Hrest]; subst. specialize (IH Hrest).
+  destruct s as [i|term]; cbn [path_from_doc].
+  - destruct (2147483647 <? i); [exact I|].
+    destruct doc as [| |arr|m];
+      try (pose proof (IH JVNull true) as H1; pose proof (IH JVScalar true) as H2).
+    + destruct (path_from_doc pv_repo defined rest JVNull true); simpl in *; try exact I; contradiction.
+    + destruct (path_from_doc pv_repo defined rest JVScalar true); simpl in *; try exact I; contradiction.
+    + cbn [pv_bound_ge pv_repo].
+      destruct (Z.of_nat (List.length arr) <=? i) eqn:Eb; [exact I|].
+      destruct (nth_or_panic_Z arr i Hs Eb) as [e He]. rewrite He. cbn [bind].
+      pose proof (IH e false) as H3.
+      destruct (path_from_doc pv_repo defined rest e false); simpl in *; try exact I; contradiction.
+    + pose proof (IH (JVObj m) true) as H3.
+      destruct (path_from_doc pv_repo defined rest (JVObj m) true); simpl in *; try exact I; contradiction.
+  - cbn [pv_zero_len pv_repo andb].
+    assert (Hobj : forall m, ok_or_err
+              (if negb (defined term) then Err "no-term-id"
+               else more <- path_from_doc pv_repo defined rest (obj_get m term) true ;; Ok (PPName term :: more))).
+    { intros m. destruct (defined term); cbn [negb]; [|exact I].
+      pose proof (IH (obj_get m term) true) as H3.
+      destruct (path_from_doc pv_repo defined rest (obj_get m term) true); simpl in *; try exact I; contradiction. }
+    destruct doc as [| |l|m]; cbn [bind]; try exact I; try apply Hobj.
+    destruct l as [|e0 l']; [exact I|]. cbn [List.length Nat.eqb].
+    destruct accept; cbn [negb bind]; [|exact I].
+    unfold nth_or_panic; cbn [nth_error bind].
+    destruct e0 as [| |l2|m2]; cbn [bind]; try exact I; try apply Hobj.
+    destruct l2; cbn [List.length Nat.eqb negb bind]; exact I.
+Qed.
+
+Definition items_empty : jv := JVObj [("items", JVArr [])].
+Definition all_defined (_ : string) : bool := true.
+
+(* `docObjT == nil` instead of `len(docObjT) == 0` (seeded C12-n): {"items": []} / "items.label" *)
+Lemma doc_path_zero_len_refuted :
+  path_from_doc (mkpv false true) all_defined [SName "items"; SName "label"] items_empty false
+  = Panic "index out of range".
+Proof. vm_compute. reflexivity. Qed.
+
+(* `idx > len(arr)` instead of `i64 >= len(arr)` (seeded C12-f): index = length *)
+Lemma doc_path_bound_refuted :
+  path_from_doc (mkpv true false) all_defined [SName "items"; SNum 2]
+                (JVObj [("items", JVArr [JVScalar; JVScalar])]) false
+  = Panic "index out of range".
+Proof. vm_compute. reflexivity. Qed.
+
+Example doc_path_examples :
+  path_from_doc pv_repo all_defined [SName "items"; SName "label"] items_empty false = Err "zero-sized-array"
+  /\ path_from_doc pv_repo all_defined [SName "items"; SNum 2] (JVObj [("items", JVArr [JVScalar; JVScalar])]) false
+     = Err "index-out-of-range"
+  /\ path_from_doc pv_repo all_defined [SName "items"; SNum 1; SName "label"]
+       (JVObj [("items", JVArr [JVScalar; JVObj [("label", JVScalar)]])]) false
+     = Ok [PPName "items"; PPIdx 1; PPName "label"].
+Proof. repeat split; vm_compute; reflexivity. Qed.
